@@ -187,6 +187,6 @@ impl Area for DescArea {
             if (da.id == db.id) != same_id { fails.push(Failure { class: "id-not-structural".into(), detail: format!("ids {} for structurally {} descriptors: {} | {}", if da.id == db.id { "equal" } else { "differ" }, if same_id { "equal" } else { "different" }, ra.line(), rb.line()) }); }
             if (da.dim_hash == db.dim_hash) != same_dim { fails.push(Failure { class: "dim-not-structural".into(), detail: format!("dim hashes {} for {} signatures: {} | {}", if da.dim_hash == db.dim_hash { "equal" } else { "differ" }, if same_dim { "equal" } else { "different" }, ra.line(), rb.line()) }); }
         } }
-        ExecOut { outs, fails }
+        ExecOut { outs, fails, model_lines: None }
     }
 }
